@@ -23,7 +23,7 @@ world = {
          "SFT merge with equal hash but diverged URIs/attributes: incoming or previous metadata accepted (silent case); royalties argument > 10000: refusal or any recorded value <= 10000."),
  "C09": ("exploration", "§5 C09", "Seeded histories of transfers to payable / non-payable / erroring contracts, users, metachain, self and wrong-length addresses with all call types and attached calls, both sides; forbidden successes are computed from the simulator's own payability table, not from the handler the functions query.",
          "Contracts that are not payable send cross-shard only through asynchronous calls (else the refund C01 demands is forbidden by C09)."),
- "C10": ("exploration", "§5 C10", "On every emitted message and every accepted transfer call of every history: the real call-arguments parser must read the emitted data exactly as the explained diff expects, the destination shard must accept continuations, and the real ESDT-transfer parser's report (receiver, tokens, nonces, values, attached call) must equal what the ledger debited/credited.",
+ "C10": ("exploration", "§5 C10", "On every emitted message and every accepted transfer call of every history: the real call-arguments parser must read the emitted data exactly as the explained diff expects, the destination shard must accept continuations, and the real ESDT-transfer parser's report (receiver, tokens, nonces, values, attached call) must equal what the ledger debited/credited. Second stage (concurrency engine, workload 'parse'): the parsers are objects their users share between goroutines; 2-8 simulated tasks parse through one shared instance of each parser under seeded statement-level interleavings (plain and race-enabled) and every report must equal the report of a fresh instance.",
          "Attached function names that are empty or contain '@' are outside the wire clause (C12's premise)."),
  "C11": ("exploration", "§5 C11", "Every call of every history runs under recover with result-shape and allocation checks; this check's histories are dominated by adversarial transactions (0..12 arguments from the adversarial pools: wrap-around residues, aliasing identifiers, 8/9-byte numbers, 31/33-byte addresses) against states reached through real calls, with transaction-reachable account-presence patterns and protocol-generated destination-side inputs.",
          "Transaction receivers are 32-byte addresses (interceptor rule); destination-side inputs are only those real sender-side executions produce."),
